@@ -45,6 +45,35 @@ Proof.
 Qed.
 Print Assumptions C09_split_keeps_record_partial.
 
+(* ---- the same at cursor level: the fix-up applied by the model (which is compared with the implementation's
+        cnpos / skip_next / copy after every mutation) makes the cursor read the record it read before ---- *)
+Theorem C09_fix_insert_keeps :
+  forall (K V : Type) (IDXNUM : nat) (c' : chain K V) cur id p idx e r pv nx,
+    positioned cur id p -> p < length r ->
+    find_node K V None c' id = Some (pv, insert_at K V r idx e, nx) ->
+    cursor_read K V c' (fix_insert K V IDXNUM c' id idx cur) = nth_error r p.
+Proof. exact fix_insert_keeps. Qed.
+Print Assumptions C09_fix_insert_keeps.
+
+Theorem C09_fix_remove_keeps :
+  forall (K V : Type) (IDXNUM : nat) (c' : chain K V) cur id p idx r pv nx,
+    positioned cur id p -> p < length r -> idx < length r -> p <> idx ->
+    find_node K V None c' id = Some (pv, remove_at K V r idx, nx) ->
+    cursor_read K V c' (fix_remove K V IDXNUM c' id idx cur) = nth_error r p.
+Proof. exact fix_remove_keeps. Qed.
+Print Assumptions C09_fix_remove_keeps.
+
+(* deleting the record under the cursor: the cursor reads the successor and carries skip_next = 1, so the next NEXT does
+   not move and the successor is visited exactly once *)
+Theorem C09_fix_remove_current :
+  forall (K V : Type) (IDXNUM : nat) (c' : chain K V) cur id p r pv nx,
+    positioned cur id p -> S p < length r ->
+    find_node K V None c' id = Some (pv, remove_at K V r p, nx) ->
+    let cur' := fix_remove K V IDXNUM c' id p cur in
+    cursor_read K V c' cur' = nth_error r (S p) /\ c_skip cur' = 1%Z.
+Proof. exact fix_remove_current. Qed.
+Print Assumptions C09_fix_remove_current.
+
 (* Non-vacuity: a cursor on slot 3 of a node; a record inserted at slot 1 moves it to slot 4, same record. *)
 Example C09_insert_example :
   nth_error (insert_at nat nat [(9,0);(8,0);(7,0);(6,0);(5,0)] 1 (88, 1)) 4 = nth_error [(9,0);(8,0);(7,0);(6,0);(5,0)] 3.
